@@ -583,6 +583,8 @@ class RaggedArray(IndexableArray, np.lib.mixins.NDArrayOperatorsMixin):
 
         ends = self._shape.ends
         starts = self._shape.starts
+        if starts.size == 0 or self.size == 0:
+            return self.ravel().reshape((starts.size, 0))  # no cells: a matrix with the same rows and no columns
         max_chars = np.max(ends-starts)
         view_starts = starts if side == "right" else ends-max_chars
 
